@@ -240,6 +240,31 @@ def history_search(case):
             m.set_params(**gp)
             if _params_repr(m) != _params_repr(ref):
                 report("set_params_of_get_params_is_not_identity", {"history": hist})
+        # queries are pure: a history with predict / predict_proba / score events answers later queries like the same history without them
+        if any(e[0] in ("predict1", "proba1", "score1") for e in hist):
+            mq, _ = replay(hist)
+            mp, _ = replay(tuple(e for e in hist if e[0] not in ("predict1", "proba1", "score1")))
+
+            def answers(mm):
+                out = []
+                for Xq, yq in ((X1, y1), (X3, y3)):
+                    for call in ("predict", "predict_proba", "score"):
+                        if not hasattr(mm, call):
+                            continue
+                        try:
+                            with warnings.catch_warnings():
+                                warnings.simplefilter("ignore")
+                                r = getattr(mm, call)(Xq, yq) if call == "score" else getattr(mm, call)(Xq)
+                            out.append(np.array(r, dtype=float, copy=True))
+                        except Exception as e:  # noqa
+                            out.append(type(e).__name__)
+                return out
+            a1, a2 = answers(mq), answers(mp)
+            same = len(a1) == len(a2) and all((isinstance(x, str) and x == z) or (not isinstance(x, str) and not isinstance(z, str) and x.shape == z.shape and np.array_equal(x, z))
+                                               for x, z in zip(a1, a2))
+            if not same:
+                report("answers_depend_on_earlier_queries", {"history": hist})
+            stats["traces"] += 1
         if name in M.SPARSE and len(hist) <= 2:
             ma, ov = replay(hist)
             mb, _, _ = fresh(ov)
